@@ -12,6 +12,8 @@ ASSUME \A b \in Byte : IsNuc(b) => /\ IsNuc(Comp(b)) /\ Code(Comp(b)) = 3 - Code
 ASSUME \A b \in Byte : ~IsNuc(b) => Comp(b) = b
 ASSUME { b \in Byte : Comp(b) # b } = {cA, cC, cG, cT, ca, cc, cg, ct}
 \* Enc restricted to upper-case k-mers is a bijection onto digit tuples, order-isomorphic to base-4 value
+\* reverse complement of a concatenation = reverse complements of the pieces in reverse order (lets long sequences be judged piecewise)
+ASSUME \A x, y \in UNION { [1..n -> {cA, cC, ca, cN, 64}] : n \in 0..3 } : RevComp(x \o y) = RevComp(y) \o RevComp(x)
 ASSUME \A k \in 1..5 :
          LET K == [1..k -> {cA, cC, cG, cT}]  D == [1..k -> 0..3] IN
            /\ \A x \in K : Dec(Enc(x)) = x /\ Enc(x) \in D
